@@ -7,7 +7,7 @@ parser module's namespace by instrumented stand-ins that record the reads and de
 import vclock
 vclock.install()
 import io  # noqa: E402
-import json  # noqa: E402
+import json, zlib  # noqa: E402
 import os  # noqa: E402
 import random  # noqa: E402
 import sys  # noqa: E402
@@ -256,32 +256,43 @@ def build_payload(ident, target, flavour, seed):
     return "".join(head) + "x" * pad + "".join(tail)
 
 
-def write_file(events, path):
+FILE_ENCODINGS = ("utf-8", "ascii", "latin-1", "cp1252")
+
+
+def write_file(events, path, encoding="utf-8", unicode_terminal=None):
     """create the events in ascending id order, close them in the listed order, with the real
-    writer; returns (file text, list of open/close problems)"""
+    writer, into a file opened with `encoding` (tbot's CLIs open the log file with the locale's
+    encoding); returns (file text, list of exceptions raised by close())"""
     cap = Capture()
+    problems = []
     with Globals(), vclock.CLOCK:
         vclock.CLOCK.reset()
         sys.stdout = cap
         L.VERBOSITY = -1
         L.NESTING = 0
+        if unicode_terminal is not None:
+            L.IS_UNICODE = unicode_terminal
         L.START_TIME = time.monotonic()
-        L.LOGFILE = io.StringIO() if path is None else open(path, "w")
+        L.LOGFILE = io.StringIO() if path is None else open(path, "w", encoding=encoding)
         try:
             evs = {}
             for ident, pl in sorted(events):
                 evs[ident] = L.EventIO(["t", str(ident)], "m", verbosity=L.Verbosity.INFO, p=pl)
             for ident, _ in events:
-                evs[ident].close()
+                try:
+                    evs[ident].close()
+                except Exception as e:   # the event is lost; the others are still closed and the file is read back
+                    problems.append(type(e).__name__)
             text = L.LOGFILE.getvalue() if path is None else None
         finally:
             if path is not None:
                 L.LOGFILE.close()
             L.LOGFILE = None
     if path is not None:
-        with open(path, "r") as f:
+        with open(path, "r", encoding=encoding) as f:
             text = f.read()
-    return text, cap.take()
+    cap.take()
+    return text, problems
 
 
 class _TraceFile:
@@ -355,10 +366,15 @@ def run_pf(toks, line) -> str:
     if len({i for i, _ in events}) != len(events):
         return "bad-case/duplicate-event-id"
     path = os.path.join(_TMP, "log.json")
-    text, _ = write_file(events, path)
-    bad = check_decoder_spec(text, n, random.Random(line))
-    if bad is not None:
-        return "assume-failed/" + bad
+    # two settings the model does not know (what is written must not depend on them): the encoding the log file was
+    # opened with and whether the terminal is a unicode one — derived from the case line
+    h = zlib.crc32(line.encode())
+    enc = FILE_ENCODINGS[h % len(FILE_ENCODINGS)]
+    text, problems = write_file(events, path, enc, bool((h // 8) % 2))
+    if not problems:
+        bad = check_decoder_spec(text, n, random.Random(line))
+        if bad is not None:
+            return "assume-failed/" + bad
     by_id = dict(events)
     trace = []
 
@@ -373,7 +389,7 @@ def run_pf(toks, line) -> str:
             return obj, end
 
     saved = {k: LP.__dict__.get(k, None) for k in ("open", "json", "READ_SIZE")}
-    LP.open = lambda name, mode="r": _TraceFile(open(name, mode), trace)
+    LP.open = lambda name, mode="r": _TraceFile(open(name, mode, encoding=enc), trace)
     LP.json = types.SimpleNamespace(JSONDecoder=TDecoder, JSONDecodeError=json.JSONDecodeError)
     LP.READ_SIZE = n
     yielded = []
